@@ -157,10 +157,7 @@ func VerifHarness_PrintFamilies() {
 		ci := errors.VerifNdIntRange("ctx", 0, len(veContexts)-1)
 		errors.VerifTag("expr", veExprs[ei])
 		errors.VerifTag("ctx", fmt.Sprint(ci))
-		code := vePreFns + "fn main() {\n" + veLocals + veSubst(veContexts[ci], veExprs[ei]) + "  println(\"end\", lst.len(), obj.f, x);\n}\n"
-		if ci == 8 {
-			code = vePreFns + "fn ret() -> int {\n" + veLocals + "  return " + veExprs[ei] + ";\n}\nfn main() {\n" + veContexts[ci] + "}\n"
-		}
+		code := veProgram(ei, ci)
 		a := errors.VerifNdInt64("A")
 		verifPrintCheck(code, []verifInput{{name: "A", kind: 'i', i: a}, {name: "T", kind: 'b', b: true}}, printer, verifHost{})
 		return
@@ -325,10 +322,7 @@ func VerifHarness_Optimizer() {
 		ei := errors.VerifNdIntRange("expr", 0, len(veExprs)-1)
 		ci := errors.VerifNdIntRange("ctx", 0, len(veContexts)-1)
 		errors.VerifTag("program", fmt.Sprintf("expr %s @%d", veExprs[ei], ci))
-		code = vePreFns + "fn main() {\n" + veLocals + veSubst(veContexts[ci], veExprs[ei]) + "  println(\"end\", lst.len(), obj.f, x);\n}\n"
-		if ci == 8 {
-			code = vePreFns + "fn ret() -> int {\n" + veLocals + "  return " + veExprs[ei] + ";\n}\nfn main() {\n" + veContexts[ci] + "}\n"
-		}
+		code = veProgram(ei, ci)
 		inputs = []verifInput{{name: "A", kind: 'i', i: errors.VerifNdInt64("A")}, {name: "T", kind: 'b', b: true}}
 	} else if src == 3 {
 		si := errors.VerifNdIntRange("stmt", 0, len(vsStatements)-1)
